@@ -454,6 +454,18 @@ def gen_choose(ctx):
         cases.append(route_case(ctx, 'choose', h, ' mx=%s if=%s cs=%s ss=%s' % (mx, ifarg, ','.join(cs) or '-', ss),
                                 quality=rng.choice([1.0, 1.0, 1.0, 0.6]), nodir=0.6))
         ctx.count('choose')
+    # a host whose only IPv6 address is one of this machine's, next to hosts of the same preference that have a foreign
+    # IPv6 address: what is left of it is an IPv4-only entry and comes behind them (seeded change c20-m9 sorted the
+    # list before the local addresses were taken out)
+    for first in (b'both.example.net',):
+        for other in (b'multi.example.net', b'mail.example.net', b'MAIL.example.net'):
+            for order in ((first, other), (other, first)):
+                for pref in (5, 10, 300):
+                    for cs in (['c', 'c', 'c', 'c', 'k'], ['k'], ['c', 'k'], ['c', 'c', 'c', 'c', 'c', 'c']):
+                        mx = ';'.join('%d/%s' % (pref, hexs(n)) for n in order)
+                        ss = session_tokens(rng, True, cs.count('k'))
+                        cases.append(route_case(ctx, 'choose', None, ' mx=%s if=%s cs=%s ss=%s' % (mx, '6' + v6(52, 2), ','.join(cs), ss), quality=1.0, nodir=1.0))
+                        ctx.count('choose:own-ipv6-among-equal-preference')
     return cases
 
 
